@@ -690,6 +690,92 @@ def op_greedy(scn):
     return out
 
 
+
+@op("parking")
+def op_parking(scn):
+    from chipfiring.CFCombinatorics import is_parking_function
+    if scn.get("n") is None:
+        ok, v = call(is_parking_function, list(scn["seq"]))
+    else:
+        ok, v = call(is_parking_function, list(scn["seq"]), scn["n"])
+    return {"is": v if ok else "ERR"}
+
+
+@op("parking_gen")
+def op_parking_gen(scn):
+    from chipfiring.CFCombinatorics import generate_parking_functions, parking_function_count
+    ok, l = call(generate_parking_functions, scn["n"])
+    ok2, cnt = call(parking_function_count, scn["n"])
+    return {"list": l if ok else "ERR", "count": cnt if ok2 else "ERR"}
+
+
+def exact_det(rows):
+    """fraction-free (Bareiss) determinant over Python ints"""
+    from fractions import Fraction
+    m = [[Fraction(x) for x in r] for r in rows]
+    n = len(m)
+    det = Fraction(1)
+    for i in range(n):
+        p = next((r for r in range(i, n) if m[r][i] != 0), None)
+        if p is None:
+            return 0
+        if p != i:
+            m[i], m[p] = m[p], m[i]
+            det = -det
+        det *= m[i][i]
+        for r in range(i + 1, n):
+            f = m[r][i] / m[i][i]
+            for c2 in range(i, n):
+                m[r][c2] -= f * m[i][c2]
+    assert det.denominator == 1
+    return int(det)
+
+
+@op("superstable_count")
+def op_superstable_count(scn):
+    import itertools
+    c = Ctx(scn)
+    ok, G = call(c.graph, scn)
+    if not ok:
+        return "ERR"
+    q = scn["q"]
+    others = [i for i in range(c.n) if i != q]
+    adjrow = {i: sum(G.graph[Vertex(c.names[i])].values()) for i in others}
+    cnt = 0
+    for combo in itertools.product(*[range(adjrow[i]) for i in others]):
+        degs = [0] * c.n
+        for i, k in zip(others, combo):
+            degs[i] = k
+        if CFConfig(c.divisor(G, degs), c.names[q]).is_superstable():
+            cnt += 1
+    L = CFLaplacian(G)
+    red = L.get_reduced_matrix(Vertex(c.names[q]))
+    keep = [c.names[i] for i in others]
+    rows = [[red[Vertex(a)][Vertex(b)] for b in keep] for a in keep]
+    return {"count": cnt, "det": exact_det(rows) if rows else 1}
+
+
+@op("kn_parking")
+def op_kn_parking(scn):
+    import itertools
+    from chipfiring.CFCombinatorics import is_parking_function
+    m = scn["m"]
+    n = m + 1
+    names = [f"v{i:02d}" for i in range(n)]
+    G = CFGraph(set(names), [(names[a], names[b], 1) for a in range(n) for b in range(a + 1, n)])
+    q = names[m]
+    agree, ns, npk = True, 0, 0
+    for combo in itertools.product(range(m + 1), repeat=m):
+        degs = [(names[i], combo[i]) for i in range(m)] + [(q, 0)]
+        ss = CFConfig(CFDivisor(G, degs), q).is_superstable()
+        pk = is_parking_function([x + 1 for x in combo])
+        ns += ss
+        npk += pk
+        if ss != pk:
+            agree = False
+    return {"agree": agree, "superstables": ns, "parking": npk}
+
+
 # ----------------------------------------------------------------------------- main loop
 
 def _jsondefault(o):
